@@ -66,7 +66,6 @@ type proxy struct {
 	plan  cutPlan
 	links chan *link // accepted links, consumed by the scenario
 	all   []*link
-	down  bool // refuse (accept and close at once) new connections
 }
 
 func newProxy(target string) (*proxy, error) {
